@@ -310,6 +310,7 @@ func (in *Interp) runPath(run func()) (end pathEnd) {
 	in.globals = map[*ssa.Global]*Value{}
 	in.initDone = map[*ssa.Package]bool{}
 	in.syncMaps = nil
+	in.randSeq = 0
 	in.bgCtx = nil
 	in.lastClock = nil
 	defer func() {
